@@ -91,6 +91,16 @@ TrFacade ==
   /\ Check("C05", Ev.res = "ok", <<"facade constructor panicked">>)
   /\ Check("C19", ~Ev.clobber, <<"the constructor wrote into the caller's middleware slice">>)
 
+\* accessors outside the listed properties (growth): the method lists are copies of the documented sets, Name() is the
+\* configured name, a facade's Pattern() is the concatenated prefix and it belongs to the router that made it
+TrMisc ==
+  /\ Ev.ev = "misc" /\ UNCHANGED <<rt, prevRt, lastEv>>
+  /\ Check("C05", Ev.res = "ok", <<"accessor panicked">>)
+  /\ Check("C08", ToSet(Ev.methods) = Supported /\ Len(Ev.methods) = Cardinality(Supported) /\ Ev.any = AnyMethods, <<"Methods() / AnyMethods()", Ev.methods, Ev.any>>)
+  /\ Check("C13", Ev.name = rt.cfg.name, <<"Router.Name()", Ev.name>>)
+  /\ Check("C19", Len(Ev.chain) > 0 => /\ Ev.sameRouter
+                                        /\ (IF Ev.isres THEN Ev.rpat ELSE Ev.ppat) = ChainPat(Ev.chain, 1), <<"facade Pattern() / Router()", Ev.chain, Ev.ppat, Ev.rpat>>)
+
 TrRemove ==
   /\ Ev.ev = "remove"
   /\ Check("C03", Ev.res = "ok", <<"Remove panicked", FullPat, Ev.res>>)
@@ -278,7 +288,7 @@ TrReq ==
 TraceNext ==
   /\ l <= Len(Trace)
   /\ l' = l + 1
-  /\ (TrReset \/ TrFacade \/ TrHandle \/ TrRemove \/ TrClean \/ TrUse \/ TrRoutes \/ TrServe \/ TrURL \/ TrSyntax \/ TrTraceHelper \/ TrReq)
+  /\ (TrReset \/ TrFacade \/ TrMisc \/ TrHandle \/ TrRemove \/ TrClean \/ TrUse \/ TrRoutes \/ TrServe \/ TrURL \/ TrSyntax \/ TrTraceHelper \/ TrReq)
   /\ (l' > Len(Trace) => PrintT("TRACE-END " \o ToString(Len(Trace))))
 
 Spec == Init /\ [][TraceNext]_vars
